@@ -237,7 +237,10 @@ class Jacobian(object):
                 for key, meta in self._subjacs_info.items():
                     of, wrt = key
                     if of in out_slices and (wrt in in_slices or wrt in out_slices):
-                        if relevance is not None and (not is_relevant(wrt) or not is_relevant(of)):
+                        # the dataflow graph has no state -> state edges inside a system, so variable
+                        # relevance says nothing about partials wrt a state: never prune those.
+                        if relevance is not None and wrt not in out_slices and \
+                                (not is_relevant(wrt) or not is_relevant(of)):
                             irrelevant_subjacs.append((key, meta, dtype))
                         else:
                             relevant_subjacs.append((key, meta, dtype))
@@ -553,8 +556,8 @@ class Jacobian(object):
                             for wrt in wrtnames[type_]:
                                 key = (of, wrt)
                                 if key in subjacs_info:
-                                    if relevance is not None and (not is_relevant(wrt) or
-                                                                  not is_relevant(of)):
+                                    if relevance is not None and type_ == 'input' and \
+                                            (not is_relevant(wrt) or not is_relevant(of)):
                                         continue
                                     keys.append(key)
 
